@@ -9,7 +9,7 @@ META = {
     "id": "C06",
     "driver": "worker",
     "harness": "h_worker",
-    "coq_targets": ["Extract/XWorker.vo"],
+    "coq_targets": ["Extract/XWorker.vo", "Extract/XServer.vo"],
     "level": "proof",
     "design_ref": "§5 worker model, C06",
     "technique": "Coq proof: timed state machine of ServerWorker's stop handling (Model/Wrk.v) and small-step model of the server's "
@@ -248,6 +248,19 @@ def custom(ctx):
             ctx.cov["diag_mismatches_warning_only"] = ctx.cov.get("diag_mismatches_warning_only", 0) + nd
             if nd:
                 ctx.notes.append("warning: %d cases of %s agree on the observable trace but differ in internal diagnostics" % (nd, st.name))
+    # graceful stop through the real builder/server with connections in progress on restarted workers, paused, after back-off
+    # (stream `bld` of the server group: its own driver and harness)
+    import common
+    from props.srvlib import bld_stream, DRIVER
+    try:
+        common.build_driver("server")
+        hbin, _ = common.build_harness("h_server")
+        bst = bld_stream(ctx, ("C06",), ["g", "gk", "gk", "gc", "gck"], 48, 1200, lens=(6, 10, 14))
+        bst.impl_cmd = [hbin, "bld"]
+        bst.model_cmd = [DRIVER, "bld"]
+        ctx.run_stream(bst)
+    except common.BuildError as e:
+        ctx.report("build-broken", {"what": "correspondence C06/bld cannot be run: %s" % str(e)[-2000:]}, nfi=True)
     if ctx.tier != "quick":
         e2e(ctx, thorough=True)
     else:
